@@ -89,6 +89,15 @@ def periods_per_year(freq):
 # ------------------------------------------------------------------------------
 
 
+def _fsum(xs):
+    xs = list(xs)
+    try:
+        return math.fsum(xs)
+    except (ValueError, OverflowError):   # inf - inf, overflow
+        with np.errstate(all="ignore"):
+            return float(np.sum(np.array(xs, dtype=float)))
+
+
 class SModel:
     __slots__ = ("freq", "nv", "cells", "lo", "hi")
 
@@ -570,11 +579,11 @@ def m_moving(m, fname, window):
             if any(x is None for x in w):
                 continue
             if fname == "mov_sum":
-                y = math.fsum(w)
-                s = math.fsum(abs(x) for x in w)
+                y = _fsum(w)
+                s = _fsum(abs(x) for x in w)
             elif fname in ("mov_avg", "mov_mean"):
-                y = math.fsum(w) / k
-                s = math.fsum(abs(x) for x in w) / k
+                y = _fsum(w) / k
+                s = _fsum(abs(x) for x in w) / k
             elif fname == "mov_prod":
                 y = 1.0
                 for x in w:
@@ -680,7 +689,7 @@ def m_extrapolate(m, ar, lo, hi, intercept=0.0, log=False):
                 path[lo - i] = float(np.log(x)) if log else x
         for t in range(lo, hi + 1):
             terms = [ar[i - 1] * path[t - i] for i in range(1, p + 1)]
-            y = math.fsum(terms) + intercept if all(z == z for z in terms) else NAN
+            y = _fsum(terms) + intercept if all(z == z for z in terms) else NAN
             path[t] = y
             mag = max([mag] + [abs(z) for z in terms if z == z])
             with np.errstate(all="ignore"):
